@@ -63,6 +63,15 @@ func (dtlsrb *DTLSRBlock) BlockTypeName() string {
 }
 
 func (dtlsrb *DTLSRBlock) CheckValid() error {
+	// Endpoint IDs which are invalid cannot be serialised again.
+	if err := dtlsrb.ID.CheckValid(); err != nil {
+		return err
+	}
+	for peer := range dtlsrb.Peers {
+		if err := peer.CheckValid(); err != nil {
+			return err
+		}
+	}
 	return nil
 }
 
